@@ -107,6 +107,10 @@ def world_job(job):
             for i, sc in enumerate(scenarios):
                 # fault dimension of every REST scenario: what the body of an HTTP error looks like (a front end
                 # answers 502/503/504/404 with HTML or nothing, not with a google.rpc JSON error)
+                # ambient configuration: the application has switched DEBUG logging on for the library's logger; the
+                # emitted logging interceptors / REST logging then serialise every request, reply and error
+                if "debug_logging" not in sc and R.stream(seed, "debug-logging", i).random() < 0.12:
+                    sc["debug_logging"] = True
                 if sc.get("client") == "rest" and "http_error_body" not in sc:
                     sc["http_error_body"] = R.stream(seed, "http-error-body", i).choice([None, None, "html", "empty"])
         res["build_s"] = time.perf_counter() - t0
@@ -135,6 +139,10 @@ def world_job(job):
                     x["k"] == "attempt" and x.get("tr") == "rest" and x.get("n") == e.get("n") and x.get("op") == e.get("op") for x in hist))
                 if nb:
                     res["faults"]["http_error_with_non_json_body"] = res["faults"].get("http_error_with_non_json_body", 0) + nb
+            if sc.get("debug_logging"):
+                res["faults"]["debug_logging_enabled_runs"] = res["faults"].get("debug_logging_enabled_runs", 0) + 1
+                res["faults"]["debug_log_records_formatted"] = res["faults"].get("debug_log_records_formatted", 0) + sum(
+                    e.get("n", 0) for e in hist if e["k"] == "log_records")
             nr = sum(1 for e in hist if e["k"] == "credentials_refreshed")
             if nr:
                 res["faults"]["http_401_credentials_refreshed_and_resent"] = res["faults"].get("http_401_credentials_refreshed_and_resent", 0) + nr
